@@ -215,6 +215,7 @@ def batches(tier, seed):  # noqa: F811
     step = total // 4 + 1
     b = _orig_batches(tier, seed) + [('batch_pairs', [n, lo, lo + step, seed + lo]) for lo in range(0, total, step)]
     b.append(('batch_tall', []))
+    b.append(('batch_wide', []))
     if tier == 'quick':
         b += [('batch_larger', ['random', seed * 3 + i, 40, 6, 16, 0]) for i in range(2)]
         b += [('batch_larger', ['case', seed, 6, 0, 4, 0])]
@@ -326,4 +327,82 @@ def batch_tall():
             if bad:
                 res['violations'].append({'label': 'tall-model', 'detail': bad[0], 'replay_func': 'replay_tall', 'replay_args': [depth, siblings]})
     res['sample'] = {'depths': [0, 1, 300, 700, 990, 1500, 3000], 'recursion_limit': 1000}
+    return res
+
+
+# -- wide models: many children per feature (ratios of two and three digits) ----------------------------------------
+
+def replay_wide(total_children, nonleaf):
+    """`nonleaf` features with children (the root and nonleaf-1 of its children), `total_children` children in all,
+    relations of mixed kinds; all six operations against the definitions."""
+    feats = [Feature('R')]
+    par, chil, nm = [None], [[]], [[]]
+
+    def new(p, name):
+        f = Feature(name)
+        feats.append(f)
+        par.append(p)
+        chil.append([])
+        nm.append([])
+        chil[p].append(len(feats) - 1)
+        return len(feats) - 1
+    inner = nonleaf - 1
+    per = (total_children - inner) // nonleaf if nonleaf else 0
+    rest = total_children - inner - per * nonleaf
+    plan = [per + rest] + [per] * inner          # leaves under the root, then under each inner feature
+    owners = [0]
+    kids = [new(0, 'I%d' % i) for i in range(inner)]
+    if kids:
+        feats[0].add_relation(Relation(feats[0], [feats[k] for k in kids], 1, len(kids)) if len(kids) > 1 else Relation(feats[0], [feats[kids[0]]], 1, 1))
+        if len(kids) > 1:
+            nm[0].extend(kids)
+    owners += kids
+    for oi, owner in enumerate(owners):
+        leaves = [new(owner, 'L%d_%d' % (oi, j)) for j in range(plan[oi])]
+        # split the leaves into an optional single, and groups of up to 7
+        j = 0
+        while j < len(leaves):
+            w = 1 if (j == 0 and len(leaves) > 1) else min(7, len(leaves) - j)
+            grp = leaves[j:j + w]
+            if w == 1:
+                feats[owner].add_relation(Relation(feats[owner], [feats[grp[0]]], 0, 1))
+            else:
+                feats[owner].add_relation(Relation(feats[owner], [feats[g] for g in grp], 1, 1))
+            nm[owner].extend(grp)
+            j += w
+    m = FeatureModel(feats[0], [])
+    # check_model walks the model in preorder; describe the same order
+    order = []
+
+    def walk(i):
+        order.append(i)
+        for r in feats[i].relations:
+            for c in r.children:
+                walk([k for k in chil[i] if feats[k] is c][0])
+    walk(0)
+    pos = {old: new_ for new_, old in enumerate(order)}
+    par2 = [None if par[o] is None else pos[par[o]] for o in order]
+    chil2 = [[pos[c] for r in feats[o].relations for c in [k for ch in r.children for k in chil[o] if feats[k] is ch]] for o in order]
+    nm2 = [[pos[c] for c in nm[o]] for o in order]
+    try:
+        ok = check_model(m, par2, chil2, nm2)
+    except Exception as exc:
+        return ['an operation raises %s: %s on a model with %d children under %d features' % (type(exc).__name__, exc, total_children, nonleaf)]
+    want = round(total_children / nonleaf, 2)
+    got = FMAverageBranchingFactor().execute(m).get_result()
+    if got != want:
+        return ['average branching factor %r != %r (%d children / %d non-leaf features)' % (got, want, total_children, nonleaf)]
+    return [] if ok else ['a tree-shape operation differs from its definition on a wide model (%d children under %d features)' % (total_children, nonleaf)]
+
+
+def batch_wide():
+    res = {'instances': 0, 'nontrivial': 0, 'violations': [], 'native_runs': 0}
+    for total, k in [(31, 3), (41, 4), (1234, 10), (21, 2), (12, 1), (100, 7), (1000, 3), (64, 6), (999, 8), (10, 3), (29, 3), (131, 13)]:
+        res['instances'] += 1
+        res['native_runs'] += 6
+        res['nontrivial'] += 1
+        bad = replay_wide(total, k)
+        if bad:
+            res['violations'].append({'label': 'wide-model', 'detail': bad[0], 'replay_func': 'replay_wide', 'replay_args': [total, k]})
+    res['sample'] = {'children/non-leaf': '31/3, 41/4, 1234/10, ...'}
     return res
